@@ -374,6 +374,60 @@ package rsm
 //@ func (s *StateMachine) getSSMeta [C11 C08]
 //@ trusted serialises the session table (bytes.Buffer, encoding/json, LRU cache): outside the subset; touches no lock
 
+// ---------------------------------------------------------------- client reads vs Close of a plain state machine (C11)
+// gguard: the address of the RWMutex that serialises client reads of this user state machine with
+// its Close (for the NativeSM wrapper it is NativeSM.mu); gconc: the user state machine supports
+// concurrent access (IConcurrentStateMachine / IOnDiskStateMachine), fixed per state machine.
+// Client reads are not counted by the loaded/offloaded protocol, so this lock is the only thing
+// that keeps a Lookup from overlapping Close: Lookup of a plain state machine needs the lock
+// (shared is enough), Close needs it exclusively.
+//@ ghost field IStateMachine.gguard int
+//@ ghost field IStateMachine.gconc bool
+//@ iface (s IStateMachine) Concurrent
+//@ ensures result == s.gconc
+//@ iface (s IStateMachine) Lookup
+//@ requires !s.gconc ==> held(0 + s.gguard) != 0
+//@ iface (s IStateMachine) NALookup
+//@ requires !s.gconc ==> held(0 + s.gguard) != 0
+//@ iface (s IStateMachine) Close
+//@ requires held(0 + s.gguard) == 2
+
+//@ pred (ds *NativeSM) wf() := ds.sm != nil && ds.sm.gguard == ptr(ds.mu)
+
+//@ func (ds *NativeSM) Concurrent [C11]
+//@ requires ds.wf()
+//@ ensures result == ds.sm.gconc
+
+//@ func (ds *NativeSM) Lookup [C11]
+//@ noframe
+//@ requires ds.wf() && held(ds.mu) == 0
+//@ modifies held(ds.mu)
+//@ ensures held(ds.mu) == 0
+
+//@ func (ds *NativeSM) NALookup [C11]
+//@ noframe
+//@ requires ds.wf() && held(ds.mu) == 0
+//@ modifies held(ds.mu)
+//@ ensures held(ds.mu) == 0
+
+// the unlocked variants are only for state machines that allow concurrent access
+//@ func (ds *NativeSM) ConcurrentLookup [C11]
+//@ noframe
+//@ requires ds.wf() && ds.sm.gconc
+
+//@ func (ds *NativeSM) NAConcurrentLookup [C11]
+//@ noframe
+//@ requires ds.wf() && ds.sm.gconc
+
+// Close runs the user Close with the lock held exclusively and marks the wrapper destroyed before
+// releasing it, so a later Lookup sees the flag instead of a closed state machine
+//@ func (ds *NativeSM) Close [C11]
+//@ noframe
+//@ requires ds.wf() && held(ds.mu) == 0
+//@ modifies held(ds.mu), ds.OffloadedStatus.destroyed
+//@ ensures held(ds.mu) == 0
+//@ ensures result == nil ==> ds.OffloadedStatus.destroyed
+
 // ---------------------------------------------------------------- recovering from a snapshot (C08)
 // after applying a snapshot of an on-disk SM the on-disk index is the snapshot's; an imported
 // snapshot applied on initial recovery also resets the "already in the SM" watermark to it, so
